@@ -357,6 +357,12 @@ func (fc *fnCtx) applyContract(st *State, callee *ssa.Function, c *Contract, arg
 	} else {
 		fc.havocAllHeap(st, "call "+callee.Name()+" (no modifies clause)")
 	}
+	// the callee may allocate: the watermark moves (objects it returns lie below the new one)
+	if !c.Pure {
+		oldA := st.alloc
+		st.alloc = fc.defs.Declare("alloc.c", "Int")
+		fc.assume(st, fmt.Sprintf("(>= %s %s)", st.alloc, oldA))
+	}
 	// 3. results + postconditions
 	sig := callee.Signature
 	var results []Val
@@ -802,7 +808,23 @@ func (fc *fnCtx) execAppend(st *State, x *ssa.Call) {
 		newRow = nr
 	}
 	fc.heapSet(st, hn, hs, fmt.Sprintf("(store %s %s %s)", h, resBase, newRow))
-	fc.setVal(x, fmt.Sprintf("(mkslice %s %s %s %s)", resBase, resOff, newLen, resCap))
+	res := fc.setVal(x, fmt.Sprintf("(mkslice %s %s %s %s)", resBase, resOff, newLen, resCap))
+	// derived facts in terms of the element function (select (select H base) (sl.ix s i)), so that
+	// quantified invariants over the old slice are found by E-matching on the new one
+	h2 := fc.heapGet(st, hn, hs)
+	elemNew := func(i string) string {
+		return fmt.Sprintf("(select (select %s %s) (sl.ix %s %s))", h2, resBase, res.T, i)
+	}
+	fc.assume(st, fmt.Sprintf("(forall ((j Int)) (! (=> (and (<= 0 j) (< j %s)) (= %s (select (select %s (sl.base %s)) (sl.ix %s j)))) :pattern ((sl.ix %s j))))",
+		oldLen, elemNew("j"), h, s.T, s.T, res.T))
+	if isVar && k <= 8 {
+		for i := int64(0); i < k; i++ {
+			fc.assume(st, eq(elemNew(fmt.Sprintf("(+ %s %d)", oldLen, i)), tAt(fmt.Sprintf("%d", i))))
+		}
+	} else if !isString(t.Ty) {
+		fc.assume(st, fmt.Sprintf("(forall ((j Int)) (! (=> (and (<= %s j) (< j %s)) (= %s (select (select %s (sl.base %s)) (sl.ix %s (- j %s))))) :pattern ((sl.ix %s j))))",
+			oldLen, newLen, elemNew("j"), h, t.T, t.T, oldLen, res.T))
+	}
 }
 
 // ---------------------------------------------------------------------------
